@@ -132,7 +132,15 @@ pub fn run(tier: &str, seed: u64, report: &mut Report) {
         let case_seed = seed.wrapping_mul(2147483629).wrapping_add(h as u64);
         let mut rng = Rng::new(case_seed);
         let go = GenOpts { max_nodes: 12, block: 16, cap: 8, ..Default::default() };
-        let steps = gen_history(&mut rng, if thorough { 20 } else { 12 }, &go, true, true);
+        let mut steps = gen_history(&mut rng, if thorough { 20 } else { 12 }, &go, true, true);
+        if h == 0 {
+            // directed: an archive whose first version was written by conserve < 0.6.4 (tail without hunk count),
+            // then a newer version, a gc with nothing to collect, and a delete of the newer version
+            let t0 = steps.iter().find_map(|s| if let Step::SetTree(t) = s { Some(t.clone()) } else { None }).unwrap();
+            let mut clock = 1_650_000_000_000_000_000;
+            let t1 = mutate_tree(&mut rng, &t0, &go, &mut clock);
+            steps = vec![Step::SetTree(t0), Step::Backup(gen_params(&mut rng)), Step::LegacyTail, Step::SetTree(t1), Step::Backup(gen_params(&mut rng)), Step::Gc, Step::Delete(vec![1], false), Step::Gc];
+        }
         let case_id = json!({"case_seed": case_seed, "steps": history_json(&steps)});
         let o = HistOpts { restore_each: false, raw: true, sig: "wo" };
         let run = run_history(&steps, &o, report, &case_id);
